@@ -278,12 +278,12 @@ def _(B, a):
     return ops.pairwise()
 
 
-@op("start_with", D(vs=st.lists(s_val, max_size=3)))
+@op("start_with", D(vs=st.lists(s_val, max_size=3)), out="any")
 def _(B, a):
     return ops.start_with(*[val(v) for v in a["vs"]])
 
 
-@op("default_if_empty", D(v=s_val))
+@op("default_if_empty", D(v=s_val), out="any")
 def _(B, a):
     return ops.default_if_empty(val(a["v"]))
 
@@ -298,7 +298,7 @@ def _(B, a):
     return ops.element_at(a["n"])
 
 
-@op("element_at_or_default", D(n=s_count, v=s_val))
+@op("element_at_or_default", D(n=s_count, v=s_val), out="any")
 def _(B, a):
     return ops.element_at_or_default(a["n"], val(a["v"]))
 
@@ -406,7 +406,7 @@ def _(B, a):
     return ops.first(B.pred("predicate", a["p"]) if a["p"] else None)
 
 
-@op("first_or_default", D(p=st.one_of(st.none(), s_pred), v=s_val), slots=("predicate",))
+@op("first_or_default", D(p=st.one_of(st.none(), s_pred), v=s_val), slots=("predicate",), out="any")
 def _(B, a):
     return ops.first_or_default(B.pred("predicate", a["p"]) if a["p"] else None, val(a["v"]))
 
@@ -416,7 +416,7 @@ def _(B, a):
     return ops.last(B.pred("predicate", a["p"]) if a["p"] else None)
 
 
-@op("last_or_default", D(p=st.one_of(st.none(), s_pred), v=s_val), slots=("predicate",))
+@op("last_or_default", D(p=st.one_of(st.none(), s_pred), v=s_val), slots=("predicate",), out="any")
 def _(B, a):
     return ops.last_or_default(val(a["v"]), B.pred("predicate", a["p"]) if a["p"] else None)
 
@@ -426,7 +426,7 @@ def _(B, a):
     return ops.single(B.pred("predicate", a["p"]) if a["p"] else None)
 
 
-@op("single_or_default", D(p=st.one_of(st.none(), s_pred), v=s_val), slots=("predicate",))
+@op("single_or_default", D(p=st.one_of(st.none(), s_pred), v=s_val), slots=("predicate",), out="any")
 def _(B, a):
     return ops.single_or_default(B.pred("predicate", a["p"]) if a["p"] else None, val(a["v"]))
 
@@ -858,7 +858,7 @@ def _(B, a):
     return ops.replay(a["n"], mapper=B.fn("mapper", lambda shared: reactivex.concat(shared, shared)), scheduler=B.lab.sched)
 
 
-@op("publish_value_ref_count", D(v=s_val), tags=("multicast",))
+@op("publish_value_ref_count", D(v=s_val), tags=("multicast",), out="any")
 def _(B, a):
     return ops.compose(ops.publish_value(val(a["v"])), ops.ref_count())
 
